@@ -195,7 +195,8 @@ def compare_replay(hist, events, nf):
             e = evs[ev_i]
             ev_i += 1
             if pending_verify is not None:
-                if e["outcome"] != "panic" or e["cls"] != "count" or e["exp"] != pending_verify["exp"] or e["act"] != pending_verify["got"]:
+                cands = [tuple(c) for c in pending_verify.get("cands", [])] or [(pending_verify["exp"], pending_verify["got"])]
+                if e["outcome"] != "panic" or e["cls"] != "count" or (e["exp"], e["act"]) not in cands:
                     bad.append(("C06", "scope exit: %s/%s exp=%s act=%s; specification: count panic exp=%s got=%s" % (
                         e["outcome"], e["cls"], e.get("exp"), e.get("act"), pending_verify["exp"], pending_verify["got"])))
             elif e["outcome"] != "ok":
